@@ -368,7 +368,15 @@ pub fn random_settings(rng: &mut Rng, mode: u8) -> Settings {
             }
         }
         if (mode == 1 || mode == 3) && rng.chance(1, 4) {
-            tags.push(LazerTag::RandomSeed(rng.range(-5, 1000) as i32));
+            // every 7th draw: the Random mod WITHOUT a seed (lazer's default). The crate then skips the
+            // shuffle, so results must stay deterministic (seed C01-random-mod-unseeded-entropy drew a
+            // fresh seed per call). Same number of PRNG draws as before, so the case stream is unchanged.
+            let seed = rng.range(-5, 1000) as i32;
+            if seed.rem_euclid(7) == 3 {
+                tags.push(LazerTag::Acronym("RD"));
+            } else {
+                tags.push(LazerTag::RandomSeed(seed));
+            }
         }
         s.mods = ModsSpec::Lazer(tags);
     }
